@@ -83,6 +83,18 @@ func init() {
 		},
 	})
 	core.Register(&core.Property{
+		ID:         "C15",
+		Decided:    "Decides that the field-name bitmaps are wide enough for the number of fields that can reach them, that a key matches a field only on the number of decoded characters, that the 8/16-field and buffer/stream key decoders differ only in width and refill handling, that encoder and decoder read struct tags through one parser, and that bitmap lookups fold case exactly as the bitmap was built; it does not decide which field a given key selects.",
+		NotCovered: "embedded-field precedence, duplicate/last-wins, the AND-of-bitsets match for a given name set, exact-before-case-insensitive preference.",
+		Rules: []*core.Rule{
+			{ID: "C15.R1", Title: "where tryOptimize builds a [][256]uintN bitmap the number of field names is bounded by a guard with bound <= N, and the bitmap has maxKeyLen+1 rows", Covers: "distinct fields keep distinct bits; long keys cannot index past the bitmap", Min: 4, Run: c15r1},
+			{ID: "C15.R2", Title: "in the four bitmap key decoders the value compared with field.keyLen derives from the bitmap row counter, not from raw cursor positions", Covers: "a key never selects a field because it is an escaped spelling of a prefix", Min: 4, Run: c15r2},
+			{ID: "C15.R3", Title: "decodeKeyByBitmapUint8 ≡ …Uint16 and …Uint8Stream ≡ …Uint16Stream under {uint16→uint8, TrailingZeros16→8, keyBitmapUint16→8, MaxUint16→8}; buffer and stream versions dispatch on the same key bytes", Covers: "structs with ≤8 and ≤16 fields, in both modes, match keys alike", Min: 4, Run: c15r3},
+			{ID: "C15.R4", Title: "encoder and decoder never read reflect.StructField.Tag themselves; both call runtime.StructTagFromField / IsIgnoredStructField", Covers: "names, omitempty/string options and '-' mean the same when encoding and decoding", Min: 2, Run: c15r4},
+			{ID: "C15.R5", Title: "every bitmap column index passes through largeToSmallTable; tryOptimize lower-cases keys and refuses names whose Unicode lower-casing differs from ASCII folding; the table folds exactly A-Z", Covers: "case-insensitive matching agrees between the bitmap builder and the scanners", Min: 10, Run: c15r5},
+		},
+	})
+	core.Register(&core.Property{
 		ID:         "C16",
 		Decided:    "Decides that the decimal accumulators of parseInt/parseUint cannot overflow silently, that the post-parse range switch rejects exactly the values outside every destination kind narrower than 64 bits (per build configuration), that a minus sign needs a digit in both decoding modes, and that kind, constructor, store width and bit-size tables agree in decoder and encoder (plus the digit tables of C04.R2); it does not decide the printed or parsed value.",
 		NotCovered: "the printer's arithmetic for every value, leading zeros after a minus sign in stream mode, fraction/exponent rejection (decided by the byte after the token, see C05).",
